@@ -44,7 +44,16 @@ def check(rep, tier, seed, replay):
     ladder = [1, 2, 3, 5, 10, 30, 100, 300, 1000, 3000, 20000] if tier == "thorough" else [2, 10, 100, 1000]
     lines = core.corpus_lines("C07")
     for p in progs:
-        for lim in ([rng.choice(ladder), ladder[-1]] if tier != "thorough" else rng.sample(ladder, 4)):
+        lims = [rng.choice(ladder), ladder[-1]] if tier != "thorough" else rng.sample(ladder, 4)
+        # a limit of the program's own (the property: all cycle limits): log-uniform, or just above
+        # a power of two - the reference snapshot is retaken at doubling intervals, so a limit-
+        # dependent slip shows only in such a band (seeded change C15-E)
+        if rng.random() < 0.5:
+            lims.append(max(1, min(ladder[-1], int(2 ** rng.uniform(0, ladder[-1].bit_length())))))
+        else:
+            k = rng.randrange(2, ladder[-1].bit_length())
+            lims.append(min(ladder[-1], (1 << k) + rng.randrange(1, max(2, (1 << k) // 4))))
+        for lim in lims:
             lines.append(f"rec {lim} | {p}")
     # the Python-facing wrapper py_quick_term_or_rec (Boolean) on a fifth of the cases
     wl = [l.replace("rec ", "recpy ", 1) for l in lines[::5] if l.startswith("rec ")]
@@ -130,7 +139,7 @@ def check(rep, tier, seed, replay):
         rep.violation("correspondence", m, found_input=False)
     rep.add_counts(len(lines), len(distinct))
     rep.cov["rule"] = ("normal-form programs (A0 = 1RB): all 2x2, slices of 3x2/2x3, tree leaves, seeded random completions up to 6x2/3x3/2x5, "
-                       "named machines; limit ladder. 'recur' is confirmed by an independent brute-force translated-cycle certificate on L0 "
+                       "named machines; limits from a ladder plus, per program, one log-uniform or just-above-a-power-of-two limit. 'recur' is confirmed by an independent brute-force translated-cycle certificate on L0 "
                        "cells, 'spinout'/'undefined' by the L0 run. Distinct non-trivial = distinct programs with a confirmed non-limit verdict.")
     rep.cov["samples"] = lines[:3] + lines[-2:]
     rep.cov["verdict_kinds"] = kinds
